@@ -240,8 +240,9 @@ def _control_split():
 
 
 def dropped(ck, prog):
-    f = prog.fn("winter_verifier::evaluator::evaluate_constraints")
-    ck.saw(f)
+    f0 = prog.fn("winter_verifier::evaluator::evaluate_constraints")
+    ck.saw(f0)
+    f = prog.inl(f0)        # private helpers the function is cut into (periodic values, Lagrange kernel terms, ..) are read in place
     g = flow(f)
     deep = None
     res_sites = [ds for ds in g.sites if ds.local == 0 and ds.kind != "param"]
